@@ -86,9 +86,9 @@ func edgeFactsTo(pred, blk *ssa.BasicBlock) []CondFact {
 	out := dominatingConds(pred)
 	if iff, ok := pred.Instrs[len(pred.Instrs)-1].(*ssa.If); ok && len(pred.Succs) == 2 && pred.Succs[0] != pred.Succs[1] {
 		if pred.Succs[0] == blk {
-			out = append(out, CondFact{iff, true})
+			out = append(out, CondFact{If: iff, Truth: true})
 		} else if pred.Succs[1] == blk {
-			out = append(out, CondFact{iff, false})
+			out = append(out, CondFact{If: iff, Truth: false})
 		}
 	}
 	return out
@@ -290,7 +290,7 @@ func ruleIDGenerator(w *World, r *Report) {
 				r.Bad(key+" is non-empty", w.InstrPos(rt), "the returned id can be empty: "+why)
 			}
 		}
-		r.Expect("returns of "+w.FnKey(gen), nRet, 2)
+		r.Expect("returns of "+w.FnKey(gen), nRet, 1)
 		// Put
 		precv := put.Params[0]
 		okPut := false
@@ -658,5 +658,5 @@ func ruleHeadingsServed(w *World, r *Report) {
 			r.Bad(key, w.FnPos(cl), "the Close of a heading parser has no option-guarded region that serves an id")
 		}
 	}
-	r.Expect("block parsers that open headings", n, 2)
+	r.Expect("block parsers that open headings", n, 1)
 }
